@@ -436,7 +436,8 @@ def random_spec(rng, net, kind=None):
                 it = next(i for i in o["items"] if i["t"] == "direction")
                 p, q = net["points"][o["from"]], net["points"][it["to"]]
                 cur = (G.bearing(p, q) * G.GON - it["val"]) % 400.0       # current orientation shift
-                c[cid(k)] = (cur - 200.0 + rng.choice([0.0, 1e-4, -1e-4, 3e-4, -5e-4, 1e-3])) % 400.0
+                seam = rng.choice([200.0, 200.0, 0.0])                    # the code wraps at +-200 gon; 0 is the other candidate
+                c[cid(k)] = (cur - seam + rng.choice([0.0, 1e-4, -1e-4, 3e-4, -5e-4, 1e-3])) % 400.0
         return {"kind": "rotate", "c": c, "seam": kind == "rotate-seam"}
     if kind == "permute":
         return {"kind": "permute", "seed": rng.randrange(1 << 30), "clusters": rng.random() < 0.8, "items": rng.random() < 0.8}
@@ -839,3 +840,16 @@ def respec(spec, net_small):
     if s["kind"] == "rename":
         s["map"] = {k: v for k, v in s["map"].items() if k in net_small["points"]}
     return s
+
+
+def orientation_shifts(net, station):
+    """approximate orientation shifts (bearing - direction, gon, in [0,400)) of the direction sets of `station`
+    computed from the coordinates written in the input (base description: axes ne, left-handed)"""
+    out = []
+    for o in net["obs"]:
+        if o["kind"] == "obs" and o["from"] == station:
+            for it in o["items"]:
+                if it["t"] == "direction" and "x" in net["points"].get(it["to"], {}):
+                    p, q = net["points"][station], net["points"][it["to"]]
+                    out.append((G.bearing(p, q) * G.GON - it["val"]) % 400.0)
+    return out
